@@ -1,5 +1,6 @@
 import Splipy.Lemmas.C10Basic
 import Splipy.Lemmas.C08Knots
+import Splipy.Lemmas.C10Cummax
 import Mathlib.Tactic.NormNum
 import Mathlib.Tactic.IntervalCases
 
@@ -129,7 +130,7 @@ theorem mk?_eq (p : ℕ) (knots : Array K) (periodic : Int) (tol : K)
       else if CtorShortPeriodic p knots (max periodic (-1)) then .error .value
       else if CtorPerMismatch p knots (max periodic (-1)) tol then .error .value
       else if CtorDecreasing knots tol then .error .value
-      else .ok { order := p, knots := knots, periodic := max periodic (-1) } := by
+      else .ok { order := p, knots := cummax knots, periodic := max periodic (-1) } := by
   unfold Basis.mk?
   simp only []
   by_cases h1 : p < 1
@@ -171,7 +172,7 @@ theorem mk?_error_iff (p : ℕ) (knots : Array K) (periodic : Int) (tol : K) :
 /-- **What the constructor accepts**, and what it then returns. -/
 theorem mk?_ok_iff (p : ℕ) (knots : Array K) (periodic : Int) (tol : K) :
     Basis.mk? p knots periodic tol
-        = .ok { order := p, knots := knots, periodic := max periodic (-1) } ↔
+        = .ok { order := p, knots := cummax knots, periodic := max periodic (-1) } ↔
       ¬ (p < 1 ∨ knots.size < 2 * p ∨ CtorShortPeriodic p knots (max periodic (-1))
         ∨ CtorPerMismatch p knots (max periodic (-1)) tol ∨ CtorDecreasing knots tol) := by
   classical
@@ -189,11 +190,36 @@ theorem mk?_ok_iff (p : ℕ) (knots : Array K) (periodic : Int) (tol : K) :
 theorem mk?_cases (p : ℕ) (knots : Array K) (periodic : Int) (tol : K) :
     Basis.mk? p knots periodic tol = .error .value ∨
       Basis.mk? p knots periodic tol
-        = .ok { order := p, knots := knots, periodic := max periodic (-1) } := by
+        = .ok { order := p, knots := cummax knots, periodic := max periodic (-1) } := by
   by_cases h : p < 1 ∨ knots.size < 2 * p ∨ CtorShortPeriodic p knots (max periodic (-1))
       ∨ CtorPerMismatch p knots (max periodic (-1)) tol ∨ CtorDecreasing knots tol
   · exact Or.inl ((mk?_error_iff p knots periodic tol).2 h)
   · exact Or.inr ((mk?_ok_iff p knots periodic tol).2 h)
+
+/-- **Accepted ⇒ exactly sorted**: whatever the constructor accepts, the basis it returns stores the running
+    maximum of the given knots, which is non-decreasing (adjacent form, as in `Basis.Valid.sorted`) — also for
+    vectors with decreases inside the tolerance, which the non-decreasing test lets through. -/
+theorem mk?_ok_sorted (p : ℕ) (knots : Array K) (periodic : Int) (tol : K) (b : Basis K)
+    (h : Basis.mk? p knots periodic tol = .ok b) :
+    b.knots = cummax knots ∧ b.knots.size = knots.size ∧
+      (∀ i j, i ≤ j → j < b.knots.size → b.knots.getD i 0 ≤ b.knots.getD j 0) ∧
+      (∀ i, i + 1 < b.knots.size → b.kn i ≤ b.kn (i + 1)) := by
+  rcases mk?_cases p knots periodic tol with he | hok
+  · rw [he] at h; cases h
+  · rw [hok] at h
+    injection h with h
+    subst h
+    refine ⟨rfl, size_cummax knots, fun i j hij hj => cummax_sorted knots i j hij (by simpa using hj), ?_⟩
+    intro i hi
+    simp only [size_cummax] at hi
+    have e1 : ({ order := p, knots := cummax knots, periodic := max periodic (-1) } : Basis K).kn (i + 1)
+        = (cummax knots).getD (i + 1) 0 := by
+      unfold Basis.kn; simp [Array.getD, hi]
+    have e0 : ({ order := p, knots := cummax knots, periodic := max periodic (-1) } : Basis K).kn i
+        = (cummax knots).getD i 0 := by
+      unfold Basis.kn; simp [Array.getD, show i < knots.size by omega]
+    rw [e1, e0]
+    exact cummax_sorted knots i (i + 1) (by omega) hi
 
 end Bool
 
@@ -210,7 +236,17 @@ theorem mk?_of_valid {b : Basis K} (hv : b.Valid) (tol : K) (htol : 0 ≤ tol) :
   · exact mk?_of_valid_periodic hv hper tol htol
   · have hge := hv.periodic_ge
     have hm : b.periodic = -1 := by omega
-    have hb : b = { order := b.order, knots := b.knots, periodic := max b.periodic (-1) } := by
+    have hsort : ∀ i, i + 1 < b.knots.size → b.knots.getD i 0 ≤ b.knots.getD (i + 1) 0 := by
+      intro i hi
+      have e1 : b.knots.getD (i + 1) 0 = b.kn (i + 1) := by
+        rw [Basis.kn_of_lt b hi]; simp [Array.getD, hi]
+      have e0 : b.knots.getD i 0 = b.kn i := by
+        rw [Basis.kn_of_lt b (show i < b.knots.size by omega)]
+        simp [Array.getD, show i < b.knots.size by omega]
+      rw [e1, e0]
+      exact hv.kn_mono (show i ≤ i + 1 by omega)
+    have hb : b = { order := b.order, knots := cummax b.knots, periodic := max b.periodic (-1) } := by
+      rw [cummax_of_sorted _ hsort]
       cases b with
       | mk o k p =>
         simp only at hm
@@ -248,7 +284,8 @@ def gapBasis : Basis ℚ := ⟨3, #[-1, 0, 1, 2, 3, 4, 5], 0⟩
 
 theorem gap_accepted :
     Basis.mk? 3 #[-1, 0, 1, 2, 3, 4, 5] 0 (1/10000000000 : ℚ) = .ok gapBasis := by
-  have hb : gapBasis = { order := 3, knots := #[-1, 0, 1, 2, 3, 4, 5], periodic := max 0 (-1) } := rfl
+  have hb : gapBasis = { order := 3, knots := cummax #[-1, 0, 1, 2, 3, 4, 5], periodic := max 0 (-1) } := by
+    rw [cummax_of_pairwise [-1, 0, 1, 2, 3, 4, 5] (by decide)]; rfl
   rw [hb, mk?_ok_iff]
   rintro (h | h | h | h | h)
   · omega
@@ -282,7 +319,8 @@ def gapBasis2 : Basis ℚ := ⟨2, #[-1, 0, 1, 2, 7/2], 0⟩
 
 theorem gap2_accepted :
     Basis.mk? 2 #[-1, 0, 1, 2, 7/2] 0 (1/10000000000 : ℚ) = .ok gapBasis2 := by
-  have hb : gapBasis2 = { order := 2, knots := #[-1, 0, 1, 2, 7/2], periodic := max 0 (-1) } := rfl
+  have hb : gapBasis2 = { order := 2, knots := cummax #[-1, 0, 1, 2, 7/2], periodic := max 0 (-1) } := by
+    rw [cummax_of_pairwise [-1, 0, 1, 2, 7/2] (by norm_num)]; rfl
   rw [hb, mk?_ok_iff]
   rintro (h | h | h | h | h)
   · omega
